@@ -20,7 +20,11 @@ impl FlattenedJson {
     /// Create a `FlattenedJson` from `Raw`.
     pub fn from_raw<T>(raw: &Raw<T>) -> Self {
         let mut s = Self { map: BTreeMap::new() };
-        s.flatten_value(to_json_value(raw).unwrap(), "".into());
+        // Valid JSON text can fail to convert, e.g. if it contains a number that is out of range.
+        match to_json_value(raw) {
+            Ok(value) => s.flatten_value(value, "".into()),
+            Err(error) => warn!("Failed to convert raw JSON to a value: {error}"),
+        }
         s
     }
 
